@@ -49,6 +49,7 @@ Parse(prog) == [i \in 1..Len(prog) |->
     [] it.k = "const" -> Mk("const", i, 0, None, "", 0, 0, "", "", 0)
     [] it.k = "brk" -> Mk("brabs", i, 4, None, it.m, it.a, it.b, "", "", it.n)
     [] it.k = "jalk" -> Mk("jalabs", i, 4, None, "jal", it.a, 0, "", "", it.n)
+    [] it.k = "pjk" -> Mk("pseudo", i, 8, None, it.m, 0, 0, "", "", it.n) @@ [pk |-> "pjk", vb |-> 0, vc |-> 0]
     [] it.k = "imml" -> Mk("imml", i, 4, None, it.m, it.a, it.b, it.t, it.f, it.n)
     [] it.k = "dw" -> Mk("dw", i, 4, None, "dw", 0, 0, it.t, it.f, it.n)
     [] it.k = "align" -> Mk("align", i, it.n, None, "", 0, 0, "", "", it.n)
@@ -103,6 +104,12 @@ ExpandOne(it, pos, lbls) ==
                         [items |-> << Mk("br", src, 4, None, b[1], b[2], b[3], it.t, "", 0) >>, shrink |-> 0]
     [] it.pk = "pj" /\ it.m \in {"j", "jal"} ->
          [items |-> << Mk("jal", src, 4, None, "jal", IF it.m = "j" THEN 0 ELSE 1, 0, it.t, "", 0) >>, shrink |-> 0]
+    [] it.pk = "pjk" ->
+         \* call / tail to an absolute address: always the two-instruction form (the distance is not monotone)
+         LET link == IF it.m = "call" THEN 1 ELSE 0
+             scratch == IF it.m = "call" THEN 1 ELSE 6
+         IN [items |-> << Mk("auipcabs", src, 4, None, "auipc", scratch, 0, "", "", it.n),
+                           Mk("jalrpabs", src, 4, None, "jalr", link, scratch, "", "", it.n) >>, shrink |-> 0]
     [] it.pk = "pj" ->
          LET off == lbls[it.t] - pos
              link == IF it.m = "call" THEN 1 ELSE 0
@@ -157,6 +164,8 @@ EncodeOK(it, pos, lbls) ==
     [] it.k = "cbr" -> off % 2 = 0 /\ Between(off, -256, 255)
     [] it.k = "jal" -> LET v == IF it.f = "lo" THEN Lo(Limbs(off)[1], Limbs(off)[2]) ELSE off IN v % 2 = 0 /\ Between(v, -1048576, 1048575)
     [] it.k = "cj" -> off % 2 = 0 /\ Between(off, -2048, 2047)
+    [] it.k = "auipcabs" -> Between(Hi(Limbs(it.n - pos)[1], Limbs(it.n - pos)[2]), -524288, 524287)
+    [] it.k = "jalrpabs" -> LET v == Lo(Limbs(it.n - pos)[1], Limbs(it.n - pos)[2]) + 4 IN v % 2 = 0 /\ Between(v, -2048, 2047)
     [] it.k = "brabs" -> (it.n - pos) % 2 = 0 /\ Between(it.n - pos, -4096, 4095)
     [] it.k = "jalabs" -> (it.n - pos) % 2 = 0 /\ Between(it.n - pos, -1048576, 1048575)
     [] it.k = "auipc" -> Between(Hi(Limbs(off)[1], Limbs(off)[2]), -524288, 524287)
